@@ -142,6 +142,7 @@ pub fn generate_tree_run<M: Machine>(verif_seed: u64, sched: u64, data_no: u64) 
         verif_seed,
         run_index: sched * 1000 + data_no,
         exact_data,
+        isolated: sched % 16 == 0,
         tapes,
         events,
         knobs: json!({"k": k, "tree": tree_shape(tree), "variant": if variant == 0 { "plain".to_string() } else if let Some(l) = empty_leaf { format!("empty chunk at leaf {l}") } else { format!("empty operand after node {}", empty_node.unwrap()) }, "family": FAMILY_NAMES[family as usize % 12], "chunk_lens": lens}),
@@ -165,11 +166,16 @@ pub fn generate_long_run<M: Machine>(verif_seed: u64, run: u64, max_pow10: u32) 
     let scale_exp = if family >= FAM_TINY { 0 } else { r.range(-10, 10) as i32 };
     let tapes = [TapeSpec::Gen { family, seed: r.next_u64(), len: n, flt, positive: false, scale_exp }, TapeSpec::Explicit(vec![])];
     // number of chunks: 1, few, many, very many (capped so that the event list stays small)
-    let chunks = (*r.pick(&[1u32, 7, 1000, 100_000])).min(n);
+    let chunks = (*r.pick(&[1u32, 7, 1000, 30_000, 100_000])).min(n);
     let base = n / chunks;
     let workers = r.usize_in(1, 4) as u16;
     let style_pool: Vec<u8> = (0..M::N_STYLES).filter(|_| r.chance(0.5)).collect();
-    let style_pool = if style_pool.is_empty() { vec![r.below(M::N_STYLES as u64) as u8] } else { style_pool };
+    let mut style_pool = if style_pool.is_empty() { vec![r.below(M::N_STYLES as u64) as u8] } else { style_pool };
+    // a third of the runs are pure right folds: every chunk is merged with the accumulated state
+    // as the RIGHT operand (acc = part + acc), so `chunks` such merges happen in a row
+    if r.chance(0.34) {
+        style_pool = vec![if M::FAMILY == Family::Sum { 3 } else { 6 }];
+    }
     let mut events = Vec::with_capacity(chunks as usize + 8);
     let mut left = n;
     for c in 0..chunks {
@@ -197,6 +203,7 @@ pub fn generate_long_run<M: Machine>(verif_seed: u64, run: u64, max_pow10: u32) 
         verif_seed,
         run_index: run,
         exact_data: false,
+        isolated: false,
         tapes,
         events,
         knobs: json!({"n": n, "chunks": chunks, "family": FAMILY_NAMES[family as usize % 12], "workers": workers, "styles": style_pool.iter().map(|&s| M::style_name(s)).collect::<Vec<_>>(), "reduce": (["a+b", "b+a (accumulated on the right)", "a+=b"][policy as usize])}),
@@ -265,6 +272,7 @@ pub fn generate_long_c09<M: Machine>(verif_seed: u64, run: u64) -> Trace {
         verif_seed,
         run_index: run,
         exact_data: false,
+        isolated: true,
         tapes,
         events,
         knobs: json!({"n": [n, n1], "family": FAMILY_NAMES[family as usize % 12], "workers": workers}),
